@@ -123,6 +123,11 @@ func (c *Config) ReadConfig(configFilePath string, flagSet *pflag.FlagSet, categ
 		if err != nil {
 			return fmt.Errorf("unable to resolve networks: [%w]", err)
 		}
+	} else {
+		// No flags to select a network: the client network defaults to
+		// mainnet, so the Ethereum and Bitcoin networks must follow it.
+		c.Ethereum.Network = clientNetwork.Ethereum()
+		c.Bitcoin.Network = clientNetwork.Bitcoin()
 	}
 
 	// Read configuration from a file if the config file path is set.
